@@ -156,6 +156,30 @@ def run(ctx):
                               instance=f"{fn['name']}: `safe` emitted iff {d.name}(arg)")
         ctx.floor("R8.5", "`safe` attribute templates in the server generator", found, 1)
 
+    # ---------------- R8.6 an error's parameters enter the log-safety computation with their declared safety
+    # Context registers every error as an object type (so that arguments referring to it get a log safety); that object must
+    # carry the parameters' FieldDefinitions unchanged — a rebuilt field that forgets `safety` silently changes the result
+    cg = ctx.F.crate("conjure_codegen")
+    FD = "conjure_codegen::types::field_definition::FieldDefinition"
+    conv = [b for b in cg.bodies if b.kind == "fn" and b.argc == 1 and "ErrorDefinition" in tystr(b.local_ty(1)) and (ty_adt(b.local_ty(0)) or "").endswith("ObjectDefinition")]
+    ctx.check(len(conv) == 1, "R8.6", "conjure_codegen", "error-object|anchor", f"expected one ErrorDefinition -> ObjectDefinition conversion, found {len(conv)}", nontrivial=False)
+    for b in conv:
+        fam = [b] + cg.closures_of(b)
+        builds = [(x, t) for x in fam for _, t in x.calls() if t["call"]["name"] == "build" and ty_adt(x.local_ty(place_local(t["dest"]))) == FD]
+        builds += [(x, None) for x in fam for _, _, s_ in x.stmts() if s_["r"].get("agg") == "adt" and s_["r"].get("adt") == FD]
+        if not builds:
+            ctx.ok("R8.6", b.loc(), f"{b.name}: parameters are passed on as the IR's FieldDefinitions (no field is rebuilt)")
+            continue
+        ok = False
+        for x in fam:
+            for _, t in x.calls():
+                if t["call"]["name"] == "safety" and "uilder" in t["call"]["def"] and len(t["args"]) >= 2:
+                    roots, calls = dt.transforming_calls(x, t["args"][1])
+                    if any(c_["call"]["def"].endswith("FieldDefinition::safety") for c_ in calls):
+                        ok = True
+        ctx.check(ok, "R8.6", b.loc(), f"{b.name}|rebuilt-field-safety",
+                  f"{b.name} rebuilds the error's parameters as new FieldDefinitions without copying their declared `safety`: an argument whose type refers to this error is then classified as if the parameter had no marker (a DO_NOT_LOG parameter of a safe type makes it `safe`)",
+                  instance=f"{b.name}: rebuilt fields copy safety()")
 
 def check_tables(ctx, F, c, I, tb):
     where = tb.loc()
